@@ -1,7 +1,7 @@
 (* Proofs about model/TemporalKw.v: the reference day of the daily keyword shifts, the change
    formulas with these references, the start-of-year value with tty, and forward cumulation
    with a keyword shift inverting the change on a span. *)
-From Coq Require Import ZArith List Bool Lia Reals.
+From Coq Require Import ZArith List Bool Lia Reals Lra.
 From Verif Require Import lib.Calendar lib.Arith lib.PyRange lib.Period model.Series gen.TemporalGen gen.DatesGen
      model.Temporal model.TemporalKw proofs.SeriesProofs proofs.TemporalProofs.
 Import ListNotations.
@@ -346,3 +346,130 @@ Proof.
 Qed.
 
 End LiftKw.
+
+(* ------------------------------------------------------------------ D. the public statements over the reals *)
+Section PublicKw.
+Notation RA := RArith.
+
+Lemma zipped_nil rf span : (forall t, In t span -> rf t = None) -> zipped_of rf span = [].
+Proof.
+  induction span as [|u l IH]; intros H; [reflexivity|]. unfold zipped_of. cbn [flat_map].
+  rewrite (H u (or_introl eq_refl)). simpl. apply IH. intros t Ht. apply H. now right.
+Qed.
+
+Lemma min_period_single rf a : rf a = None -> min_period_of rf (py_range a (a + 1) 1) a <= a.
+Proof.
+  intros H. unfold min_period_of. rewrite zipped_nil; [simpl; lia|].
+  intros t Ht. rewrite py_range_step1 in Ht. apply In_zrange in Ht. replace t with a by lia. exact H.
+Qed.
+
+(* 1. the change with a keyword shift, period by period, for every frequency class *)
+Theorem kw_change_formula k by_ (x c : series RA) st :
+  let en := st + Z.of_nat (length (s_data x)) - 1 in
+  WF RA x -> s_start x = Some st -> change_fixed_shift k = None ->
+  change_kw RA k by_ x = Ok c ->
+  forall t, st <= t <= en ->
+    match kw_ref (s_freq x) by_ t with
+    | Some (Some r) => row_at RA c t = zip_bcast RA (change_fun RA k (factor_of RA x)) (row_at RA x t) (row_at RA x r)
+    | Some None => row_at RA c t = zip_bcast RA (change_fun RA k (factor_of RA x)) (row_at RA x t)
+                                     (bcast_row RA (s_nv x) [nval RA (change_neutral k)])
+    | None => False
+    end.
+Proof.
+  intros en Hwf Hst Hfix Hc. unfold change_kw in Hc. rewrite Hfix in Hc.
+  destruct (change_kw_rows RA RA_miss_law _ by_ _ x c st Hwf Hst Hc) as (_ & _ & H). exact H.
+Qed.
+
+Lemma bcast_single_nth nv (v : R) i : (i < nv)%nat -> nth i (bcast_row RA nv [v]) (miss RA) = v.
+Proof.
+  intros Hi. unfold bcast_row. rewrite nth_map_in with (d' := 0%nat) by (rewrite seq_length; lia).
+  cbn [length]. rewrite Nat.sub_diag, Nat.min_0_r. reflexivity.
+Qed.
+
+Lemma zip_neutral_row (f : R -> R -> R) (v : R) (row : list R) nv :
+  length row = nv -> (forall a, f a v = a) -> zip_bcast RA f row (bcast_row RA nv [v]) = row.
+Proof.
+  intros Hl Hf. subst nv. assert (Lb := bcast_row_length RA (length row) [v]).
+  apply nth_ext with (d := miss RA) (d' := miss RA).
+  - rewrite zip_bcast_length, Lb. apply Nat.max_id.
+  - intros i Hi. rewrite zip_bcast_length, Lb, Nat.max_id in Hi.
+    rewrite zip_bcast_nth by (rewrite ?Lb; auto). rewrite bcast_single_nth by assumption. apply Hf.
+Qed.
+
+(* 2. documented start-of-year value with tty: diff and roc leave the value unchanged there (every frequency class) *)
+Theorem tty_start_of_year_unchanged k (x c : series RA) st :
+  let en := st + Z.of_nat (length (s_data x)) - 1 in
+  k = KDiff \/ k = KRoc ->
+  WF RA x -> s_start x = Some st ->
+  change_kw RA k Tty x = Ok c ->
+  forall t, st <= t <= en -> kw_ref (s_freq x) Tty t = Some None -> row_at RA c t = row_at RA x t.
+Proof.
+  intros en Hk Hwf Hst Hc t Ht Hnone.
+  assert (Hfix : change_fixed_shift k = None) by (destruct Hk as [-> | ->]; reflexivity).
+  pose proof (kw_change_formula k Tty x c st Hwf Hst Hfix Hc t Ht) as H. rewrite Hnone in H. rewrite H.
+  apply zip_neutral_row; [apply (row_at_length RA); solve [assumption | exact RA_miss_law]|].
+  destruct Hk as [-> | ->]; intros a; cbv [change_fun change_neutral nval change_diff_neutral change_roc_neutral].
+  - rewrite diff_formula. change (ofZ RA 0) with (IZR 0). lra.
+  - rewrite roc_formula. change (ofZ RA 1) with (IZR 1). field.
+Qed.
+
+(* the start-of-year periods: segment 1 of a regular year, 1 January of a daily year *)
+Lemma tty_none_regular fr t : fr <> 365 -> t mod fr = 0 -> kw_ref fr Tty t = Some None.
+Proof.
+  intros Hfr Hm. rewrite regular_kw_ref by assumption. cbn [period_shift]. unfold p_tty, serial_seg. rewrite Hm. reflexivity.
+Qed.
+Lemma tty_none_daily t : in_cal t -> t = ord_of_ymd (year_of_ord t) 1 1 -> kw_ref 365 Tty t = Some None.
+Proof. intros H E. rewrite daily_tty by assumption. rewrite <- E, Z.eqb_refl. reflexivity. Qed.
+
+Lemma change_kw_valid k by_ (x c : series RA) : change_fixed_shift k = None -> change_kw RA k by_ x = Ok c -> shift_invalid by_ = false.
+Proof.
+  intros Hfix Hc. unfold change_kw, temporal_change_kw in Hc. rewrite Hfix in Hc. destruct (shift_invalid by_); [discriminate|reflexivity].
+Qed.
+
+(* 3. forward cumulation with the same (keyword or integer) shift and the original series as initial condition
+      reproduces the series on the span a..b, whatever the number of years (leap or common) the span covers *)
+Theorem kw_cum_forward_inverts ck by_ (x c r : series RA) st a b :
+  let en := st + Z.of_nat (length (s_data x)) - 1 in
+  let fr := s_freq x in
+  WF RA x -> s_start x = Some st -> cells_in RA (dom_of ck) x st en ->
+  st <= a <= b -> b <= en ->
+  (* every reference period of the span lies in the sample, before its period *)
+  (forall t q, a <= t <= b -> kw_ref fr by_ t = Some (Some q) -> st <= q < t) ->
+  (* the first period of the span has a reference, or it is a start-of-year period followed by an ordinary one *)
+  ((exists q, kw_ref fr by_ a = Some (Some q)) \/
+   (kw_ref fr by_ a = Some None /\ (a = b \/ kw_ref fr by_ (a + 1) = Some (Some a)))) ->
+  change_kw RA (chg_of ck) by_ x = Ok c ->
+  s_freq c = fr ->
+  temporal_cumulation_kw RA ck by_ (InitSeries RA x) (SpanFromTo a b 1) c = Ok r ->
+  forall t, a <= t <= b -> row_at RA r t = row_at RA x t.
+Proof.
+  intros en fr Hwf Hst Hdom Hab Hb Href Hfirst Hc Hfr Hr t Ht.
+  assert (Hfix : change_fixed_shift (chg_of ck) = None) by (destruct ck; reflexivity).
+  pose proof (change_kw_valid _ _ _ _ Hfix Hc) as Hval.
+  pose proof (kw_change_formula _ by_ x c st Hwf Hst Hfix Hc) as Hform.
+  unfold change_kw in Hc. rewrite Hfix in Hc.
+  destruct (change_kw_rows RA RA_miss_law _ by_ _ x c st Hwf Hst Hc) as (Hwfc & Hnvc & _).
+  unfold temporal_cumulation_kw in Hr. rewrite Hval in Hr.
+  cbn [sgn] in Hr. change (1 >? 0) with true in Hr. cbv iota beta in Hr.
+  rewrite Hfr in Hr. change (sgn 1) with 1 in Hr.
+  destruct (kw_raises fr by_ (py_range a (b + 1) 1)) eqn:Hraise; [discriminate|].
+  inversion Hr as [Hr']. clear Hr. cbn [initial_rows].
+  assert (Hnn : forall u, a <= u <= b -> kw_ref fr by_ u <> None).
+  { intros u Hu. apply (kw_raises_false _ _ _ _ Hraise). rewrite py_range_step1. apply In_zrange. lia. }
+  set (rf := kw_ref_tot fr by_).
+  assert (Hrf : forall u q, rf u = Some q <-> kw_ref fr by_ u = Some (Some q)).
+  { intros u q. unfold rf, kw_ref_tot. destruct (kw_ref fr by_ u) as [[q'|]|]; split; intros H; try discriminate; congruence. }
+  assert (Hmin : min_period_of rf (py_range a (b + 1) 1) a <= a).
+  { destruct Hfirst as [[q Hq]|[Hn [->|Hn1]]].
+    - apply (min_period_head rf a b q); [lia|now apply Hrf|]. destruct (Href a q) as [_ H]; [lia|exact Hq|lia].
+    - apply min_period_single. unfold rf, kw_ref_tot. now rewrite Hn.
+    - destruct (Z.eq_dec a b) as [->|Hne].
+      + apply min_period_single. unfold rf, kw_ref_tot. now rewrite Hn.
+      + apply min_period_second; [lia|now apply Hrf]. }
+  apply (cum_forward_rf_inverts RA RA_miss_law _ _ (dom_of ck) (fwd_law ck (factor_of RA x)) x c rf st a b);
+    try assumption; try lia.
+  intros u q Hu Hq. apply Hrf in Hq. split; [now apply (Href u q)|].
+  specialize (Hform u). fold fr in Hform. rewrite Hq in Hform. apply Hform. lia.
+Qed.
+
+End PublicKw.
